@@ -444,7 +444,7 @@ def impl_view(cases, run):
             e = run["log"][i]
             rec.update({"pass": run["results"][i]["pass"], "inputs": common.canon_unordered(e["inputs"]),
                         "resource": common.canon_unordered(e["resource"] or None),
-                        "out": g.out_wire(e["out"]), "eff": e["eff"]["e"]})
+                        "out": obs_out(e["out"]), "eff": e["eff"]["e"]})
         out.append(rec)
     return out
 
@@ -457,7 +457,8 @@ def model_view(ans):
             res = m["resource"]
             rec.update({"pass": m["pass"], "inputs": common.canon_unordered(common.from_wire(m["inputs"])),
                         "resource": common.canon_unordered(None if res is None else (common.from_wire(res["some"]) or None)),
-                        "out": m["res"]["out"], "eff": m["res"]["eff"]["e"]})
+                        "out": {k: v for k, v in m["res"]["out"].items() if k != "m"},
+                        "eff": m["res"]["eff"]["e"]})
             if rec["out"].get("c") == "ok":
                 rec["out"] = {"c": "ok", "v": None}
         out.append(rec)
@@ -657,7 +658,7 @@ def run(tier: str) -> int:
     ck.prove(extractors=["FtConsts"])
     drv = LeanDriver("C18")
     replay_corpus(ck)
-    n = 200 if tier == "quick" else 3000
+    n = 170 if tier == "quick" else 3000
     explore(ck, drv, rng("c18"), n)
     if tier == "thorough":
         ck.leanchecker()
